@@ -236,6 +236,9 @@ func compareOptionValues(c *explore.Ctx, b *decl.Built, cfg *ref.Config, res *re
 		}
 		if o.Type.IsFunc() {
 			want := expectedCalls(o, res.Occs[o])
+			if _, held := cfg.Held[o]; held && len(res.Occs[o]) == 0 {
+				want = nil // an earlier parse on this parser called it explicitly: its default is not applied any more
+			}
 			got := *b.Calls[o]
 			if strings.Join(want, "\x00") != strings.Join(got, "\x00") || len(want) != len(got) {
 				c.Fail(sigPrefix+"callback-log|"+o.Type.Name, map[string]interface{}{"option": o.ID, "want_calls": want, "got_calls": got})
@@ -379,6 +382,7 @@ func earlierParse(b *decl.Built, cfg *ref.Config, argv []string, keep ...*decl.O
 	saved := map[*decl.Opt]reflect.Value{}
 	for _, o := range keep {
 		if o.Type.IsFunc() {
+			held[o] = reflect.Value{} // (a marker: a callback has no value to hold; what lasts is that its default is spent)
 			continue
 		}
 		v := reflect.New(b.Vals[o].Type()).Elem()
